@@ -48,6 +48,10 @@ impl Prop for PPipe {
         // the bytes find wrote go through a pipe into the real xargs -0
         let mut o = XOpts::new(&r0.out);
         o.opts = vec!["-0".into()];
+        // optionally under a small stack limit: the paths then fill several command lines
+        if let Some(l) = input.get("xrlim").and_then(|l| l.as_u64()) {
+            o.rlimit_stack = Some(l);
+        }
         let x = run_xargs(&self.xsb, &o);
         if looks_like_panic(&x) {
             return json!({"panic": true, "xargs": true});
@@ -72,15 +76,30 @@ impl Prop for PPipe {
             let mut tree: Vec<Value> = vec![json!({"parent": 0, "name": str_to_json(&rootname), "kind": "d", "target": 0})];
             let cnt = if tier == "thorough" { 900 } else { 400 };
             let chars = ["\u{65e5}", "\u{e9}", "\u{1F600}", "\u{20ac}", "\u{672c}"];
-            for j in 0..cnt {
+            // every other such case: long names below two long directories, and xargs under a small stack limit - the
+            // paths (a few hundred KiB of multi-byte text) have to be spread over several command lines
+            let long = (_idx / 10) % 2 == 0;
+            let mut parent = 1;
+            if long {
+                for l in 0..2 {
+                    let name: String = (0..70).map(|k| chars[(k + l) % 2 * 3]).collect();
+                    tree.push(json!({"parent": parent, "name": str_to_json(&name), "kind": "d", "target": 0}));
+                    parent = tree.len();
+                }
+            }
+            for j in 0..(if long && tier != "thorough" { 300 } else { cnt }) {
                 let mut name = format!("{:03}", j);
-                for k in 0..3 + (j % 9) {
+                for k in 0..(if long { 50 } else { 3 }) + (j % 9) {
                     name.push_str(chars[(j + k) % chars.len()]);
                 }
-                tree.push(json!({"parent": 1, "name": str_to_json(&name), "kind": "f", "target": 0}));
+                tree.push(json!({"parent": parent, "name": str_to_json(&name), "kind": "f", "target": 0}));
             }
-            return json!({"tree": tree, "roots": [{"spell": str_to_json(&rootname), "node": 1}],
+            let mut v = json!({"tree": tree, "roots": [{"spell": str_to_json(&rootname), "node": 1}],
                           "cfg": {"mode": "P", "min": 0, "max": super::pwalk::NOMAX, "depth": false, "sorted": true, "prune": []}, "pre": {"p": "none"}});
+            if long {
+                v["xrlim"] = json!(512 * 1024);
+            }
+            return v;
         }
         if _idx % 10 == 7 {
             // a newline in one component and a long tail after it (longer than stdout's line buffer)
